@@ -14,10 +14,14 @@
                     successfully; the clone is a copy along the clone table (sharing kept both ways), unfolds to the
                     same trees under the same rule keys, its working-memory maps are the re-targeted ones, its ids
                     are fresh;
-     C09_accepted_build  the graph the listener builds (bottom-up, Expression / ExpressionAtom / Variable nodes interned by
-                    snapshot = by tree) from ACCEPTED rules only, any number, any trees, is well formed and closed;
-     C09_orphan     a graph with an orphan in the working memory is NOT clonable (what a rejected resource leaves
-                    behind: recorded finding D10a, Example rejected_build_not_clonable);
+     C09_build_history   the graph the builder makes (bottom-up, Expression / ExpressionAtom / Variable nodes interned by
+                    snapshot = by tree; a rejected resource is walked and then rolled back to the checkpoint taken
+                    before the walk, engine commit 4ed034e) from ANY sequence of accepted and rejected resources, any
+                    number, any trees, is well formed and closed - so instance creation succeeds also after rejected
+                    resources; C09_accepted_build is the special case without rejections;
+     C09_orphan     a graph with an orphan in the working memory is NOT clonable: what the checkpoint prevents
+                    (the walk of a refused rule without roll-back: Example without_checkpoint_not_clonable, the
+                    former finding D10a);
      C09_disjoint   blueprint, instance and any later instance have pairwise disjoint nodes;
      C09_instance   on the library machine: instance creation succeeds for every built / stored+loaded key at any later
                     time, and Execute / FetchMatchingRules on the new instance are those of the library's knowledge base;
@@ -38,6 +42,10 @@ Print Assumptions C09_clone.
 Theorem C09_accepted_build : forall rs, wf_kb (to_kbg (build_rules rs)) /\ closed (to_kbg (build_rules rs)).
 Proof. exact accepted_build_closed. Qed.
 Print Assumptions C09_accepted_build.
+
+Theorem C09_build_history : forall h, wf_kb (to_kbg (build_history h)) /\ closed (to_kbg (build_history h)).
+Proof. exact any_build_history_closed. Qed.
+Print Assumptions C09_build_history.
 
 Theorem C09_orphan : C09_orphan_statement.
 Proof. exact C09_orphan_proved. Qed.
